@@ -1569,6 +1569,135 @@ where
     }
 }
 
+/// Integer trees with a small total: the descent is a deterministic function of the uniform target, and
+/// rand's `random_range(0..total)` maps the first word v to the target floor(v * total / 2^b) (b = 32 for the
+/// 8/16/32-bit types, 64 for the 64-bit ones; no second word is drawn while total <= 2^(b-1)). Forcing the
+/// word ceil(t * 2^b / total) for every t in 0..total enumerates all targets exactly once: index i must be
+/// returned exactly w_i times. This is the induced law with no sampling error (off-by-one comparisons in the
+/// descent, which move 1/total of the mass, are far below the frequency tests' resolution for total >~ 1e3).
+fn tree_exact_targets<W: Wt>(ctx: &Ctx, bits: u32) {
+    let states = if cfg!(debug_assertions) { 30 } else if ctx.thorough() { 4000 } else { 400 };
+    let mut r = BaseRng::from_env(hseed(&[ctx.seed, crate::rng::hstr(W::NAME), 0xE7AC]));
+    let mag_of = |m: &M| -> u128 {
+        if let M::I { mag, .. } = m {
+            *mag
+        } else {
+            0
+        }
+    };
+    let small = |r: &mut BaseRng| -> M {
+        let v = [0u128, 0, 1, 1, 1, 2, 3, 5, 8, 17, 40][r.random_range(0..11)];
+        M::I { neg: false, mag: v.min(W::imax() / 2) }
+    };
+    let cap = W::imax();
+    let mut targets_total = 0u64;
+    for si in 0..states {
+        let len = match si % 5 {
+            0 => r.random_range(1..=4usize),
+            1 => r.random_range(5..=40usize),
+            2 => *[7usize, 8, 9, 15, 16, 17, 31, 32, 33, 63, 64, 65, 127, 129].get(r.random_range(0..14)).unwrap(),
+            _ => r.random_range(1..=300usize),
+        };
+        // keep the total inside the weight type: every generated operation is one the tree accepts
+        let mut ops: Vec<Op> = vec![];
+        let mut model: Vec<M> = vec![];
+        let mut tot = 0u128;
+        for _ in 0..len {
+            let m = small(&mut r);
+            if tot + mag_of(&m) > cap {
+                model.push(M::I { neg: false, mag: 0 });
+            } else {
+                tot += mag_of(&m);
+                model.push(m);
+            }
+        }
+        ops.push(Op::New(model.clone()));
+        let muts = if si % 3 == 0 { 0 } else { r.random_range(1..=80usize) };
+        for _ in 0..muts {
+            let tot_now: u128 = model.iter().map(&mag_of).sum();
+            match r.random_range(0..6) {
+                0 | 1 => {
+                    let m = small(&mut r);
+                    if tot_now + mag_of(&m) <= cap {
+                        ops.push(Op::Push(m));
+                        model.push(m);
+                    }
+                }
+                2 => {
+                    if model.len() > 1 {
+                        ops.push(Op::Pop);
+                        model.pop();
+                    }
+                }
+                _ => {
+                    if !model.is_empty() {
+                        let i = r.random_range(0..model.len());
+                        let m = small(&mut r);
+                        if tot_now - mag_of(&model[i]) + mag_of(&m) <= cap {
+                            ops.push(Op::Update(i, m));
+                            model[i] = m;
+                        }
+                    }
+                }
+            }
+        }
+        let (tree, built_model) = match state_from_history::<W>(&ops) {
+            Some(Ok(x)) => x,
+            _ => continue, // panics while building are reported by c10_one / C09
+        };
+        if built_model.len() != model.len() {
+            continue;
+        }
+        let total: u128 = model.iter().map(&mag_of).sum();
+        if total == 0 || total > (1 << 16) {
+            continue;
+        }
+        let base = VRng::mix(hseed(&[ctx.seed, si as u64, 0xE7AD]));
+        let mut counts = vec![0u64; model.len()];
+        let mut bad: Option<String> = None;
+        for t in 0..total {
+            let v = ((t << bits) + total - 1) / total; // ceil(t * 2^b / total)
+            let word = if bits == 32 { (v as u64) << 32 } else { v as u64 };
+            let mut rng = base.clone();
+            rng.force(0, word);
+            rng.begin_call();
+            match catch(|| tree.try_sample(&mut rng)) {
+                Ok(Ok(i)) if i < counts.len() => {
+                    counts[i] += 1;
+                    if rng.call_words != 1 {
+                        bad = Some(format!("target {t}: {} words consumed instead of 1", rng.call_words));
+                        break;
+                    }
+                }
+                Ok(other) => {
+                    bad = Some(format!("target {t}: try_sample returned {:?}", other));
+                    break;
+                }
+                Err(m) => {
+                    bad = Some(format!("target {t}: panic: {}", m.lines().next().unwrap_or("")));
+                    break;
+                }
+            }
+        }
+        targets_total += total as u64;
+        ctx.eval(total as u64);
+        ctx.nontrivial(hseed(&[crate::rng::hstr(W::NAME), si as u64, 0x11]));
+        if bad.is_none() {
+            for (i, m) in model.iter().enumerate() {
+                let w = mag_of(m) as u64;
+                if counts[i] != w {
+                    bad = Some(format!("index {i} (weight {w}) is returned for {} of the {total} equally likely targets", counts[i]));
+                    break;
+                }
+            }
+        }
+        if let Some(msg) = bad {
+            viol(ctx, "WeightedTreeIndex", W::NAME, "exact_law", "all_targets", format!("WeightedTreeIndex<{}> {} after {} mutations: {}", W::NAME, show(&model), muts, msg), json!({"kind": "tree", "tree": TreeCase { wt: W::NAME.into(), ops: ops.clone() }}));
+        }
+    }
+    ctx.class(&format!("c10:exact_targets_enumerated:{}", W::NAME), targets_total);
+}
+
 /// f32 trees: enumerate all 2^23 targets of the float draw
 fn c10_f32_exhaustive(ctx: &Ctx) {
     let trees = if cfg!(debug_assertions) { 4 } else if ctx.thorough() { 300 } else { 24 };
@@ -1645,6 +1774,15 @@ fn c10_f32_exhaustive(ctx: &Ctx) {
 pub fn run_c10(ctx: &Ctx) {
     for_all_wt!(c10_one(ctx));
     c10_f32_exhaustive(ctx);
+    // exact induced law over all targets (integer types whose uniform draw is a single 32- or 64-bit word)
+    tree_exact_targets::<u8>(ctx, 32);
+    tree_exact_targets::<u16>(ctx, 32);
+    tree_exact_targets::<u32>(ctx, 32);
+    tree_exact_targets::<i8>(ctx, 32);
+    tree_exact_targets::<i16>(ctx, 32);
+    tree_exact_targets::<i32>(ctx, 32);
+    tree_exact_targets::<u64>(ctx, 64);
+    tree_exact_targets::<i64>(ctx, 64);
     // fixed cases: empty and all-zero trees
     let mut rng = VRng::from_env(ctx.seed);
     let e = WeightedTreeIndex::<u32>::new(Vec::<u32>::new()).unwrap();
